@@ -99,8 +99,10 @@ class C05(Prop):
     rule = ('cases: W1 documents with textual twins; per document every '
             'non-root node x {delete, replace_with(1..3 items), '
             'parent.remove, parent.replace}, every container x every index '
-            '0..len x insert, append, and identity-addressed removal of text '
-            'leaves; one edit per fresh parse. non-trivial = the target has a '
+            '0..len x insert, append, identity-addressed removal of text '
+            'leaves, and the four removal/replacement operations on every '
+            'body element reached through the `.all` view (text runs and '
+            'blanks included); one edit per fresh parse. non-trivial = the target has a '
             'textual twin or sits in an argument, or the insertion index is '
             'interior (append: non-empty container); distinct = by (source, operation)')
     assumptions = (
@@ -154,12 +156,15 @@ class C05(Prop):
                     if want(k):
                         yield k, {'src': src, 'op': op, 'target': t, 'new': spec, 'nt': nt}
             for ci, n in enumerate(lens):
-                for i in range(n + 1):
+                # every position, plus negative and out-of-range indices
+                # (resolved like list.insert: from the end / clamped)
+                for i in list(range(n + 1)) + [-1, -2, -n, -n - 3, n + 3]:
                     k += 1
                     spec = new()
                     if want(k):
                         yield k, {'src': src, 'op': 'insert', 'container': ci,
-                                  'index': i, 'new': spec, 'nt': 0 < i < n}
+                                  'index': i, 'new': spec,
+                                  'nt': 0 < i < n or -n < i < 0}
                 k += 1
                 spec = new()
                 if want(k):
@@ -171,6 +176,22 @@ class C05(Prop):
                     parts = [str(e) for e in conts[ci].expr._contents]
                     yield k, {'src': src, 'op': 'remove-leaf', 'container': ci, 'index': i,
                               'nt': parts.count(parts[i]) > 1}
+            # targets reached through the `.all` view, the only view that
+            # hands out text runs (blank ones included) as nodes
+            textset = set(texts)
+            for ci, n in enumerate(lens):
+                parts = [str(e) for e in conts[ci].expr._contents]
+                for i in range(n):
+                    ops = ('delete', 'replace_with', 'remove', 'replace')
+                    if (ci, i) not in textset:
+                        ops = (ops[rng.randrange(4)],)
+                    for op in ops:
+                        k += 1
+                        spec = new()
+                        if want(k):
+                            yield k, {'src': src, 'op': 'all-' + op, 'container': ci,
+                                      'index': i, 'new': spec,
+                                      'nt': parts.count(parts[i]) > 1}
 
     def nontrivial(self, p):
         return bool(p.get('nt'))
@@ -228,7 +249,35 @@ class C05(Prop):
         if head + ''.join(parts) + tail != whole or src[pos:pos + len(whole)] != whole:
             return [fail('setup', 'container text does not decompose')]
         ctx.seen('container_class', type(C.expr).__name__)
-        if op == 'remove-leaf':
+        if op.startswith('all-'):
+            i = p['index']
+            try:
+                alls = list(C.all)
+            except AssertionError:
+                # TexNode.all refuses nodes whose arguments hold bare strings
+                ctx.count('all_view_unavailable')
+                return []
+            off = len(alls) - len(parts)
+            if off < 0 or str(alls[off + i]) != parts[i]:
+                return [fail('setup', '.all does not end with the body contents')]
+            node = alls[off + i]
+            if sum(1 for x in parts if x == parts[i]) > 1:
+                ctx.count('targets_with_twin')
+                ctx.count('all_targets_with_twin')
+            ctx.seen('all_target_class', type(C.expr._contents[i]).__name__)
+            text = ''
+            if op == 'all-delete':
+                node.delete()
+            elif op == 'all-remove':
+                C.remove(node)
+            else:
+                new, text = make_new(p['new'])
+                if op == 'all-replace_with':
+                    node.replace_with(*new)
+                else:
+                    C.replace(node, *new)
+            inner = ''.join(parts[:i]) + text + ''.join(parts[i + 1:])
+        elif op == 'remove-leaf':
             i = p['index']
             leaf = C.expr._contents[i]
             if sum(1 for x in parts if x == parts[i]) > 1:
@@ -239,8 +288,14 @@ class C05(Prop):
             new, text = make_new(p['new'])
             if op == 'insert':
                 i = p['index']
-                ctx.seen('index_class', 'first' if i == 0 else 'end' if i == len(parts) else 'interior')
                 C.insert(i, *new)
+                if i < 0:
+                    ctx.count('negative_insert_index')
+                    i = max(len(parts) + i, 0)
+                elif i > len(parts):
+                    ctx.count('overlong_insert_index')
+                    i = len(parts)
+                ctx.seen('index_class', 'first' if i == 0 else 'end' if i == len(parts) else 'interior')
             else:
                 i = len(parts)
                 C.append(*new)
@@ -259,11 +314,15 @@ class C05(Prop):
         for op in ('delete', 'replace_with', 'remove', 'replace', 'insert', 'append', 'remove-leaf'):
             if c.get('op:' + op, 0) < 300:
                 g.append('operation %s issued fewer than 300 times' % op)
+        if c.get('all_targets_with_twin', 0) < 100:
+            g.append('fewer than 100 edits through the .all view aimed at a target with a twin')
         if c.get('targets_with_twin', 0) < 500:
             g.append('fewer than 500 edits aimed at a target with a textual twin')
         locs = set(m['sets'].get('target_location', ()))
         if len(locs) < 8:
             g.append('targets in fewer than 8 (location, parent class) combinations')
+        if c.get('negative_insert_index', 0) < 200 or c.get('overlong_insert_index', 0) < 50:
+            g.append('negative / out-of-range insertion indices issued too rarely')
         if len(m['sets'].get('index_class', ())) < 3:
             g.append('insertion index classes first/interior/end not all seen')
         if c.get('probe:edit.remove', 0) < 100 or c.get('probe:edit.insert', 0) < 100:
